@@ -53,7 +53,9 @@ def cases(draw, tier="quick", frictionless=False):
                   "moves": [list(m) for m in moves], "cash_entry": draw(st.booleans()),
                   "order": draw(st.permutations(list(range(n)))),
                   # the last quotes may share one timestamp, with a valuation between them
-                  "same_time": draw(st.sampled_from([False, False, True])), "peek": draw(st.sampled_from([False, True]))}
+                  "same_time": draw(st.sampled_from([False, False, True])), "peek": draw(st.sampled_from([False, True])),
+                  # the trades of the very same Rebalancing object may be previewed (make_trades) before the quotes move
+                  "preview": draw(st.sampled_from([False, False, True]))}
     h["frictionless"] = frictionless
     return h
 
@@ -65,6 +67,15 @@ def run_target(case):
         return res
     led, br, n = lab.ledger, lab.broker, lab.n
     fin = case["final"]
+    previewed = None
+    if fin.get("preview") and led.nlv() > 1e-6 * led.scale():
+        t_quotes = lab.now
+        previewed = lab.rebalancing(list(fin["targets"]), fin["measure"], 10 ** 6, order=fin.get("order"))
+        lab.now = t_quotes                       # its time lies ahead; the quotes below arrive before it
+        try:
+            previewed.make_trades(br)            # a preview of the trades at the quotes of this moment
+        except Exception:  # noqa  (the preview may be refused: nothing to reuse then)
+            previewed = None
     for i, (mv, sp) in enumerate(fin["moves"]):
         lab.send_quote(i, min(max(lab.mid[i] * mv, 1e-3), 1e7), sp, same_time=bool(fin.get("same_time")) and i > 0)
         if fin.get("peek") and i == 0:
@@ -89,7 +100,12 @@ def run_target(case):
     q_before = list(led.q)
     held = [i for i in range(n) if q_before[i] != 0]
     reb = lab.rebalancing(targets, fin["measure"], fin["dt"], order=fin.get("order"))
-    if fin["cash_entry"] and fin["measure"] == "weight":
+    if previewed is not None and targets == list(fin["targets"]):
+        # nothing was sanitised away: execute the very object that was previewed, at the quotes of now
+        reb = previewed
+        lab.reb_time = lab.now = previewed.time
+        res.tag("previewed-before-quotes-moved")
+    if fin["cash_entry"] and reb is not previewed and fin["measure"] == "weight":
         # an explicit entry for the cash contract is legal and must be ignored
         cs = [lab.contracts[i] for i, w in enumerate(targets) if w is not None] + [lab.cash]
         ws = [w for w in targets if w is not None] + [0.3]
